@@ -25,6 +25,8 @@ pub open spec fn mscale(a: Map<Commodity, real>, k: real) -> Map<Commodity, real
 pub open spec fn rounded(ctx: &ReportContext, m: Map<Commodity, real>) -> Map<Commodity, real> {
     Map::new(m.dom(), |c: Commodity| ctx_round(ctx, c, m[c]))
 }
+// R25b loops: no entry before position i has commodity c
+pub open spec fn untouched<V>(e: Seq<(Commodity, V)>, i: int, c: Commodity) -> bool { forall|j: int| 0 <= j < i ==> (#[trigger] e[j]).0 != c }
 pub open spec fn all_zero(m: Map<Commodity, real>) -> bool { forall|c: Commodity| m.contains_key(c) ==> m[c] == 0real }
 
 impl PostingAmount {
